@@ -47,9 +47,9 @@ Theorem C19_error_kind : forall v e, vla_marshal v = Err e ->
 Proof. exact vla_marshal_error_kind. Qed.
 Print Assumptions C19_error_kind.
 
-Theorem C19_leb128_inverse : forall v rest, 0 <= v < 72057594037927936 ->
+Theorem C19_leb128_inverse : forall v rest, 0 <= v < 18446744073709551616 ->
   read_leb128 (write_leb128 v ++ rest) = Some (v, zlen (write_leb128 v)).
-Proof. exact leb128_roundtrip. Qed.
+Proof. exact leb128_roundtrip_64. Qed.
 Print Assumptions C19_leb128_inverse.
 
 (* Non-vacuity: a valid two-stream allocation is accepted and decodes to itself into a used
@@ -76,10 +76,13 @@ Proof.
   repeat split; vm_compute; reflexivity.
 Qed.
 
-(* The bound 2^56 in valid_vla is sharp: ReadLeb128 packs the encoded bytes into a 64-bit
-   accumulator, so a bitrate of 2^56 (9 LEB128 bytes) does not survive (D19; no real bitrate is
-   that large). *)
-Theorem C19_roundtrip_refuted_above_2_56 :
-  read_leb128 (write_leb128 72057594037927936) <> Some (72057594037927936, zlen (write_leb128 72057594037927936)).
-Proof. vm_compute. discriminate. Qed.
-Print Assumptions C19_roundtrip_refuted_above_2_56.
+(* D19, repaired in /repo: ReadLeb128 used to pack the encoded bytes into a 64-bit accumulator, so a
+   bitrate of 2^56 or more (9 or 10 LEB128 bytes) did not survive; it now adds the 7-bit groups up
+   directly and valid_vla admits every non-negative Go int (rate_ok: below 2^63). *)
+Example C19_large_bitrates_repaired :
+  rate_ok 72057594037927936 /\ rate_ok 9223372036854775807 /\
+  write_leb128 72057594037927936 = [128; 128; 128; 128; 128; 128; 128; 128; 1] /\
+  read_leb128 (write_leb128 72057594037927936) = Some (72057594037927936, 9) /\
+  read_leb128 (write_leb128 9223372036854775807) = Some (9223372036854775807, 9) /\
+  read_leb128 (write_leb128 18446744073709551615) = Some (18446744073709551615, 10).
+Proof. unfold rate_ok. repeat split; try lia; vm_compute; reflexivity. Qed.
